@@ -94,7 +94,9 @@ Theorem C11_clone_fits :
            vbk v' = vbk src /\
            length ys = length xs /\
            unext u' = unext u + N.of_nat (length xs) /\
-           ufuse u' = None /\ uevents u' = rev (clone_events xs ys) ++ uevents u.
+           ufuse u' = None /\
+           uevents u' = rev (clone_events xs ys) ++ uevents u /\
+           (fixed_backend (vbk src) -> vcap v' = vcap src).
 Proof. exact clone_vec_ok. Qed.
 
 Theorem C11_stackn_pinned_refuted :
